@@ -359,7 +359,33 @@ func IsException(exception *Type, r interface{}) bool {
 
 // FIXME prototype __getattr__ before we do introspection!
 func (e *Exception) M__getattr__(name string) (Object, error) {
+	if name == "value" && e.Base.IsSubtype(StopIteration) {
+		// StopIteration.value: the return value of the generator
+		return StopIterationValue(e), nil
+	}
 	return e.Args, nil // FIXME All attributes are args!
+}
+
+// StopIterationValue returns the value carried by a StopIteration
+// however it was raised (its first argument, None if there is none):
+// the return value of a generator and the value of a yield from
+// expression
+func StopIterationValue(err error) Object {
+	var exc *Exception
+	switch e := err.(type) {
+	case *Exception:
+		exc = e
+	case ExceptionInfo:
+		exc, _ = e.Value.(*Exception)
+	case *ExceptionInfo:
+		exc, _ = e.Value.(*Exception)
+	}
+	if exc != nil {
+		if args, ok := exc.Args.(Tuple); ok && len(args) > 0 {
+			return args[0]
+		}
+	}
+	return None
 }
 
 func (e *Exception) M__str__() (Object, error) {
